@@ -24,4 +24,5 @@ def run(idx, rep, tier):
     runmin.r_runmin(idx, rep, ["distance3d.gjk._gjk_jolt"], floor=2)
     ericson.r_ericson(idx, rep)
     misc2.r_dupcond(idx, rep, [m.name for m in idx.lib_modules()], floor=3)
+    johnson.r_cofactorsign(idx, rep)
     unpack.r_unpack(idx, rep, floor=9)
